@@ -869,7 +869,11 @@ func (ch *Channel) Close() {
 		// Stop the idle connections timer.
 		ch.mutable.idleSweep.Stop()
 
-		ch.mutable.state = ChannelStartClose
+		// Only ever move the state forward: a repeated Close must not take a
+		// channel that already reached ChannelInboundClosed back to ChannelStartClose.
+		if ch.mutable.state < ChannelStartClose {
+			ch.mutable.state = ChannelStartClose
+		}
 		if len(ch.mutable.conns) == 0 {
 			ch.mutable.state = ChannelClosed
 			channelClosed = true
